@@ -37,6 +37,8 @@ DECIDED = [
     "C17.6 the per-image operations behind a vm-level ramfile state are local ones (KNOWN FINDING F24: the pool-routing public operations are used)",
     "C17.5 qcow2ext listing: a state per '*.qcow2' entry; backend class constants select the ON/OFF pattern",
     "C17.7w the vm-level parameters name all images (the object iteration does not write its input); C17.2z companion snapshots of size 0 must not veto a vm state (known finding F41)",
+    'C17.8 os.stat of a listed state file is guarded by its existence (a dangling link hides nothing else)',
+    "C17.5/C17.3 the directory listings accept exactly the entries ending with the state suffix (decided on the language of accepted names: endswith / regular expressions) and name the state '<entry minus suffix>'",
 ]
 NOT_DECIDED = ["qemu-img output outside the stated line model", "captured group text under backtracking", "matches spanning several lines"]
 ASSUMPTIONS = ["line model of `qemu-img snapshot -l`: ID, spaces, TAG [\\w.-]+, spaces, VM SIZE ('0 B' or %0.3g value + unit), spaces, DATE yyyy-mm-dd, rest"]
